@@ -3058,8 +3058,8 @@ def diversity_cases(ctx):
                     for opt in ({"preserve_previous": True}, {"target_state": 1, "preserve_previous": True},
                                 {"target_state": 2 ** n - 1}):
                         j += 1
-                        if (j + offs[5]) % 3:
-                            continue        # a third of the 42 combinations per run (every form and option in each run)
+                        if (j + j // 3 + offs[5]) % 3:
+                            continue        # one option per (form, n) and run, shifting from pair to pair: 14 of the 42 per run
                         cases.append(_dv_case(rng, name, n, form, dict(opt), calls_a[(j + offs[2]) % len(calls_a)],
                                               DV_STYLES[(j + offs[3]) % len(DV_STYLES)], (1, 0, 2)[j % 3], exact_state=True))
         # (B) every call form on generic complex data with options that CHANGE the operator (a dropped keyword is visible)
